@@ -399,7 +399,7 @@ class C15(Prop):
             'handler result kind (25 kinds: str/bytes/empty/100 kB/list/yielding handler/file sizes 0..10000 read from the start, an offset or the end/serve_file/'
             'pipe-like stream with scripted short reads/application-made Response object (own path /o)/'
             'generator body/pushed stream/explicit Response/status with body/204,304,101 with and without body/errors/'
-            'raise, also after yields/redirect) x HTTP 1.0|1.1 x Connection absent|keep-alive|close x GET|HEAD x stream on|off x '
+            'raise, also after yields or after having preset Content-Length / called serve_file / redirect; status = every final code with a reason phrase) x HTTP 1.0|1.1 x Connection absent|keep-alive|close x GET|HEAD x stream on|off x '
             'app Content-Type; raw bytes per request decoded by http.client; non-trivial = at least 2 requests '
             'answered on the connection, or a response that is chunked, close-delimited, written in more than two '
             'pieces, or body-less by rule (HEAD/1xx/204/304); distinct = distinct spec hash')
